@@ -16,6 +16,9 @@ KIND = {"/v1/user/login/id/get": "lid", "/v1/user/login": "login", "/v1/iot/secu
 class ModelCloud:
     def __init__(self, account: str, password: str, *, rng, script=None, token_for=None):
         self.account, self.password = account, password
+        self.accounts = None                  # optional {account: password}: several accounts served by one cloud (one per region)
+        self.session_account = {}             # session id -> account it was issued to
+        self.login_ids = {}                   # login id -> account
         self.rng = rng
         self.script = list(script or [])      # outcomes of the coming attempts ("ok" when exhausted)
         self.events = []
@@ -43,6 +46,12 @@ class ModelCloud:
         sign_in = (path + query + APP_KEY).encode("ascii")
         o = {"sign_in": B(sign_in), "sign_out": B(hashlib.sha256(sign_in).digest()), "pw1_in": [], "pw1_out": [], "pw2_in": [], "pw2_out": []}
         good = fields.get("sign") == hashlib.sha256(sign_in).hexdigest()
+        if self.accounts is not None and kind in ("lid", "login"):
+            acct = fields.get("loginAccount", "")
+            if acct in self.accounts:         # requests are verified against the account they name
+                self.account, self.password = acct, self.accounts[acct]
+                if kind == "login":
+                    self.login_id = next((l for l, a in reversed(list(self.login_ids.items())) if a == acct), self.login_id)   # the latest one issued to it
         if kind == "login":
             h1 = hashlib.sha256(self.password.encode("ascii"))
             pw2_in = ((self.login_id or "") + h1.hexdigest() + APP_KEY).encode("ascii")
@@ -60,19 +69,25 @@ class ModelCloud:
         if out == "timeout":
             raise httpx.ReadTimeout("model cloud: no answer", request=request)
         if out == "http":
-            return httpx.Response(self.rng.choice([400, 404, 500, 503]), request=request, text="error")
+            code = self.rng.choice([400, 404, 500, 503, 301, 302, 304, 307])
+            return httpx.Response(code, request=request, text="error", headers={"location": "http://captive.portal/"} if code in (301, 302, 307) else None)
         if out == "api":
             return httpx.Response(200, request=request, text=json.dumps({"errorCode": str(self.rng.choice([3101, 3102, 3106, 3004])), "msg": "model cloud api error"}))
         if kind == "lid":
             self.login_id = self._fresh(24)
+            self.login_ids[self.login_id] = self.account
             ev["lid"] = B(self.login_id.encode())
             return httpx.Response(200, request=request, text=json.dumps({"errorCode": "0", "msg": "ok", "result": {"loginId": self.login_id}}))
         if kind == "login":
             sid = self._fresh(32)
             self.sessions.add(sid)
+            self.session_account[sid] = self.account
             ev["sid"] = B(sid.encode())
             return httpx.Response(200, request=request, text=json.dumps({"errorCode": "0", "msg": "ok", "result": {"sessionId": sid, "userId": "4711", "nickName": "x"}}))
         if kind == "tok":
-            lst = self.token_for(fields.get("udpid", "")) if self.token_for else self.token_list
+            if self.accounts is not None:
+                lst = self.token_for(fields.get("udpid", ""), self.session_account.get(fields.get("sessionId", ""), ""))
+            else:
+                lst = self.token_for(fields.get("udpid", "")) if self.token_for else self.token_list
             return httpx.Response(200, request=request, text=json.dumps({"errorCode": "0", "msg": "ok", "result": {"tokenlist": lst}}))
         return httpx.Response(404, request=request, text="no such endpoint")
